@@ -242,7 +242,8 @@ def plans(thorough):
     out = []
     subsets = [tuple(s) for r in range(1, 6) for s in itertools.combinations(KINDS, r)]
     if not thorough:
-        subsets = [('xml',), ('xml', 'logits', 'alto'), tuple(KINDS), ('alto', 'lines'), ('render', 'lines'), ('lines',), ('xml', 'render', 'logits')]
+        subsets = [('xml',), ('xml', 'logits', 'alto'), tuple(KINDS), ('alto', 'lines'), ('render', 'lines'), ('lines',), ('xml', 'render', 'logits'),
+                   ('xml', 'lines')]
     ids = IDS_T if thorough else IDS_Q
     for ks in subsets:
         n = writes_per_run(ids, ks)
@@ -336,7 +337,7 @@ def run(ctx):
         seen.add(s)
         fails.append(Failure(s, 'resume contract %s fails: %s on %s' % (f['clause'], f['observed'], f['input']), function='parse_folder.main',
                              input=f['input'], observed=f['observed'], clause=f['clause']))
-    ctx.add_bounded('crash-points', 'page ids %r; output subsets %s; a kill before every write position, 1..%d successive crashes (strided for >1)' % (IDS_T if thorough else IDS_Q, 'all 31' if thorough else '7 representative', 3 if thorough else 2),
+    ctx.add_bounded('crash-points', 'page ids %r; output subsets %s; a kill before every write position, 1..%d successive crashes (strided for >1)' % (IDS_T if thorough else IDS_Q, 'all 31' if thorough else '8 representative', 3 if thorough else 2),
                     res['evaluations'], res['nontrivial'], thorough, res['samples'], fails,
                     rule='every plan (output subset, kill positions) of the stated grid; non-trivial = at least one crash',
                     clause='final tree equals uninterrupted tree; complete pages not reprocessed; clean exit')
